@@ -23,8 +23,8 @@ for d in sorted(glob.glob(os.path.join(ROOT, "seeded", "*"))):
     else:
         res = {}
         for pid in meta.get("run_checks", [meta["property"]]):
-            env = dict(os.environ, VERIF_REPO=WT, VERIF_OUT=os.path.join(ROOT, "out", "_seeds"),
-                       VERIF_EVID=os.path.join(ROOT, "out", "_seeds", "evidence"))
+            od = os.path.join(ROOT, "out", "_seeds_" + os.path.basename(WT))
+            env = dict(os.environ, VERIF_REPO=WT, VERIF_OUT=od, VERIF_EVID=os.path.join(od, "evidence"))
             p = subprocess.run(["./check", pid], cwd=ROOT, env=env, capture_output=True, text=True)
             first = next((l for l in p.stdout.splitlines() if l.startswith(("VIOLATION", "UNDECIDED"))), "")
             res[pid] = {"exit": p.returncode, "first_line": first[:260]}
